@@ -49,6 +49,7 @@ EvalGrid(U) == ParamGrid(U, Deg(U) + 1) \cup Midpoints(U)
 
 (* the default nodes of fit_points: closed equispaced over the whole interval *)
 NCGrid(V, n) == [i \in 1..n |-> Add(Umin(V), Mul(Sub(Umax(V), Umin(V)), Q(i - 1, n - 1)))]
+Rev(sq) == [i \in 1..Len(sq) |-> sq[Len(sq) + 1 - i]]
 (* a ladder of explicit tolerances of ratio 2: whatever the deviation of a lossy removal, some rung lies just below *)
 (* it and the next just above, so acceptance thresholds off by a factor (tolerance per knot, 2x, 1/2x) show      *)
 TolLadder == {<<"q", 1, 16>>, <<"q", 1, 8>>, <<"q", 1, 4>>, <<"q", 1, 2>>, <<"q", 1, 1>>, <<"q", 2, 1>>, <<"q", 4, 1>>, <<"q", 8, 1>>}
@@ -92,6 +93,9 @@ MCArgs(name, h, dep) ==
          \cup {[obj |-> "a", nodes |-> SeqOfSet(EvalGrid(U)), scalar |-> FALSE, form |-> f] : f \in {"tuple", "list"}}
          \cup {[obj |-> "a", nodes |-> <<Umin(U), Add(Umax(U), One), Umax(U)>>, scalar |-> FALSE, form |-> "tuple"],
                [obj |-> "a", nodes |-> <<Umax(U), Umin(U)>>, scalar |-> FALSE, form |-> "list"],
+               \* many nodes at once, unsorted and repeated, as a numpy array and as a generator
+               [obj |-> "a", nodes |-> Rev(SeqOfSet(EvalGrid(U))) \o SeqOfSet(EvalGrid(U)), scalar |-> FALSE, form |-> "array"],
+               [obj |-> "a", nodes |-> Rev(SeqOfSet(EvalGrid(U))) \o <<Umin(U), Umin(U)>>, scalar |-> FALSE, form |-> "gen"],
                [obj |-> "a", nodes |-> <<>>, scalar |-> FALSE, form |-> "tuple"]}
     [] name = "FnBasis" ->
          {[obj |-> "a", weights |-> W, j |-> j, u |-> u] :
@@ -105,6 +109,15 @@ MCArgs(name, h, dep) ==
            \cup {[obj |-> "a", nodes |-> n] :
                     n \in {m \in SeqsUpTo(Midpoints(U) \cup {x \in InteriorSet(U) : MultOf(U, x) = 1}, 3) :
                              Len(m) = 3 /\ ~(Le(m[1], m[2]) /\ Le(m[2], m[3]))}}
+           \* many nodes in one call: every span midpoint up to Deg times (interleaved order), as a numpy array / generator;
+           \* thirds of the first span with a midpoint in between
+           \cup (IF Deg(U) = 0 THEN {} ELSE
+                 LET ms == SeqOfSet(Midpoints(U))
+                     many == Rev(ms) \o (IF Deg(U) >= 2 THEN ms ELSE <<>>) \o (IF Deg(U) >= 3 THEN ms ELSE <<>>)
+                     a1 == Umin(U) b1 == Knots(U)[2]
+                     thirds == <<Add(a1, Mul(Sub(b1, a1), Q(2, 3))), Mid(a1, b1), Add(a1, Mul(Sub(b1, a1), Q(1, 3))), Mid(a1, b1)>> IN
+                 {[obj |-> "a", nodes |-> many, form |-> "array"], [obj |-> "a", nodes |-> many, form |-> "gen"]}
+                 \cup (IF Deg(U) >= 2 THEN {[obj |-> "a", nodes |-> thirds, form |-> "tuple"]} ELSE {}))
          ELSE IF dep < PrepDepth THEN
            {[obj |-> "a", nodes |-> n] :
                n \in {m \in MultisetsUpTo(Midpoints(U) \cup InteriorSet(U), NodeSize) \ {<<>>} : InsertGuard(U, m)}}
@@ -137,6 +150,10 @@ MCArgs(name, h, dep) ==
          LET bump == \E i \in DOMAIN h["a"].P : ~IsZero(h["a"].P[i]) /\ Lt(RAbs(h["a"].P[i]), Q(1, 1000)) IN
          {[obj |-> "a", which |-> w, tol |-> t] : w \in {"knot", "degree", "all"},
                                                   t \in (IF bump THEN {<<"e", 30>>} ELSE {<<"default">>, <<"e", 30>>})}
+    [] name = "CvSplitJoin" ->
+         LET ms == SeqOfSet(Midpoints(U)) is == SeqOfSet(InteriorSet(U)) IN
+         {[obj |-> "a", nodes |-> n, form |-> f] :
+             n \in {ms, Rev(ms) \o is, <<ms[1]>>, is \o Rev(ms) \o <<ms[1]>>} \ {<<>>}, f \in {"list", "array"}}
     [] name = "CvSplitTake" ->
          IF dep = 0 THEN
            {[obj |-> "a", nodes |-> <<x>>, i |-> 1] : x \in (Midpoints(U) \cup InteriorSet(U) \cup {y \in ExtraNodes : Lt(Umin(U), y) /\ Lt(y, Umax(U))})}
@@ -148,6 +165,12 @@ MCArgs(name, h, dep) ==
     [] name = "CvArith" ->
          {[obj |-> "a", other |-> B, op |-> o] : B \in Others({}), o \in {"add", "sub", "mul"}}
          \cup {[obj |-> "a", other |-> B, op |-> "div"] : B \in Others({"pos"})}
+         \* both operands rational (different weights, different knot vectors)
+         \cup (IF h["a"].W = <<>> THEN {} ELSE
+               {[obj |-> "a", other |-> B, op |-> o] : B \in {C \in Others({"pos", "rational"}) : C.W # <<>>},
+                                                     o \in {"add"}}
+               \cup {[obj |-> "a", other |-> B, op |-> o] :
+                        B \in {C \in Others({"pos", "rational"}) : C.W # <<>> /\ Npts(C.U) = 2}, o \in {"sub", "mul", "div"}})
          \cup {[obj |-> "a", other |-> ShiftTo(CHOOSE B \in Others({"pos"}) : TRUE, Add(Umin(U), One)), op |-> o] :
                    o \in {"add", "sub", "mul", "div"}}
     [] name = "CvScalar" ->
